@@ -10,16 +10,18 @@
       model ([run_scenario_f] with the real victims and placements as oracle
       values and the observed refusals as failure oracle) producing the same
       calls, and the property clauses are evaluated on every real Evict call.
-      How a refused eviction is treated (Statement.commitEvict, unchanged code):
-      the error is logged; Statement.unevict is called with the status and GPU
-      groups commitEvict read off the pod just before the Cache call, i.e. the
-      ones the statement gave it - so in the session the pod KEEPS the status
-      Releasing (or Pipelined on its new node, if the statement re-placed it)
-      for the rest of the cycle, only the previous node's copy is refreshed
-      (and the plugins' allocate handlers run); the remaining operations of the
-      statement - the nominations - are still committed.  The session the
-      cycle ends in, derived from the calls under this reading, is compared
-      with the statuses read from the real session ([y_final]).  Purpose-built clusters carry the designated scenario: the
+      How a refused eviction is treated (Statement.commitEvict as repaired by
+      5a5de9a): the error is logged; the evict operation is reversed, i.e.
+      Statement.unevict is called with the status, GPU groups and node the
+      operation recorded when the pod was evicted - so in the session the pod is
+      back to what it was before the eviction (e.g. Running; it keeps the node
+      name the statement gave it if the statement re-placed it), the previous
+      node's copy is refreshed (and the plugins' allocate handlers run); the
+      remaining operations of the statement - the nominations - are still
+      committed.  The session the cycle ends in, derived from the calls under
+      this reading, is compared with the statuses read from the real session
+      ([y_final]) for EVERY pod, the ones whose eviction was refused included.
+      Purpose-built clusters carry the designated scenario: the
       model's verdict "evicts / does not evict" must equal the real outcome.
     - [KResolve]: the min-runtime durations the real plugin resolved for a pair
       of queues (read back through its exported filter hooks).
@@ -114,17 +116,19 @@ Fixpoint take_pipes (cs : list fcall) : list (positive * positive * list positiv
   | FC _ (CPipe p n gs) :: r => let '(pp, rest) := take_pipes r in ((p, n, gs) :: pp, rest)
   | _ => ([], cs)
   end.
-(** commitEvict's "un-evict" of a refused eviction, from the calls alone: the pod
-    keeps the status, groups and node name the statement gave it; the copy on the
-    node it was evicted from ([s0]: the state the commit started from) is refreshed *)
+(** commitEvict's "un-evict" of a refused eviction (repair 5a5de9a: the evict
+    operation is reversed), from the calls alone: the pod gets back the status and
+    GPU groups it had in the state the commit started from ([s0]) and keeps the node
+    name the statement gave it; the copy on the node it was evicted from is refreshed *)
 Definition apply_refused (s0 s : sstate) (p : positive) : sstate :=
-  match get_task (ss_tasks s0) p, get_task (ss_tasks s) p with
-  | Some tk0, Some tk =>
+  match get_task (ss_tasks s0) p with
+  | Some tk0 =>
       match vt_node tk0 with
-      | Some n0 => mkSS (ss_jobs s) (ss_tasks s) (entry_set (ss_entries s) p n0 (vt_groups tk))
+      | Some n0 => mkSS (ss_jobs s) (upd_first p (set_status_groups (vt_status tk0) (vt_groups tk0)) (ss_tasks s))
+                        (entry_set (ss_entries s) p n0 (vt_groups tk0))
       | None => s
       end
-  | _, _ => s
+  | None => s
   end.
 Definition apply_seg (s : sstate) (sg : seg) : sstate :=
   fold_left (apply_refused s) (sg_refused sg)
@@ -171,6 +175,23 @@ Definition vcall_eqb (a b : vcall) : bool :=
 Definition seg_faults (sg : seg) : faults :=
   mkF (fun k => negb (nth k (map snd (sg_ev sg)) true)) (fun _ => false).
 
+(** The placements of the statement, as far as the calls show them.  The recorder
+    reads the GPU groups off the pod object handed to Cache.TaskPipelined; when the
+    eviction of a shared pod that the statement had moved to OTHER GPU groups of
+    its own node was refused earlier in the same commit, the un-evict (repair
+    5a5de9a) has already put the pod's old groups back, so the call shows the old
+    groups and the statement's choice is not observable.  It differed from the
+    node's entry (else Statement.Pipeline would have un-evicted the pod and no
+    TaskPipelined would exist); any such groups give the same run of the model, a
+    fresh one stands for them. *)
+Definition fresh_groups (egs : list positive) : list positive := [Pos.succ (fold_right Pos.max xH egs)].
+Definition seg_sim (s : sstate) (sg : seg) : list (positive * positive * list positive) :=
+  map (fun r => let '(p, n, gs) := r in
+                match entry_of (ss_entries s) p n with
+                | Some egs => if mem_pos p (sg_refused sg) && pos_list_eqb gs egs then (p, n, fresh_groups egs) else r
+                | None => r
+                end) (sg_pipes sg).
+
 (** the real commit is an accepted run of the model and the model emits the same calls *)
 Definition seg_model_ok (env : venv) (ss : sstate * seg) : bool :=
   let '(s, sg) := ss in
@@ -178,11 +199,11 @@ Definition seg_model_ok (env : venv) (ss : sstate * seg) : bool :=
   | Some a, Some pre =>
       let evs := map fst (sg_ev sg) in
       let sc := mkSc [] (dedup_pos evs) evs 0 true in
-      match run_scenario_f (seg_faults sg) env a s pre sc (sg_pipes sg) with
+      match run_scenario_f (seg_faults sg) env a s pre sc (seg_sim s sg) with
       | Committed calls _ =>
           list_eqb vcall_eqb calls
                    (map (fun e : positive * bool => if snd e then VEvict (fst e) a pre else VEvictFailed (fst e) a pre) (sg_ev sg)
-                    ++ map (fun r => let '(p, n, gs) := r in VPipe p n gs) (sg_pipes sg))
+                    ++ map (fun r => let '(p, n, gs) := r in VPipe p n gs) (seg_sim s sg))
       | _ => false
       end
   | _, _ => false
@@ -239,31 +260,28 @@ Fixpoint bind_stop_ok (s : sstate) (cs : list fcall) : bool :=
   | _ :: r => bind_stop_ok s r
   end.
 
-(** the session the cycle ends in, as derived from the calls, against the real session.
-    [excl]: pods left out.  A pod whose eviction was refused stays "virtually"
-    Releasing in the real session (commitEvict hands Statement.unevict the status
-    and the IsVirtualStatus flag it reads at commit time); its own job then counts
-    it among the pods to place, and JobSolver.Solve can return a solved statement
-    that nominates it while the job gained no active pod - the action neither
-    commits nor discards that statement, so the pod ends the cycle nominated in
-    the session without any Cache call.  Nothing reaches the cluster; such pods are
-    compared loosely and the difference is counted (observation flag 120). *)
-Definition final_ok (excl : list positive) (sf : sstate) (fin : list (positive * status * option positive)) : bool :=
+(** the session the cycle ends in, as derived from the calls, against the real
+    session: status of every pod, and its node when it holds resources.  (Before
+    repair 5a5de9a pods whose eviction was refused had to be left out: they stayed
+    "virtually" Releasing, their own job counted them among the pods to place and
+    an action could be left with a solved statement, neither committed nor
+    discarded, that nominated them without any Cache call.  With the pod restored
+    to its pre-eviction status and IsVirtualStatus this no longer happens - not met
+    on 87000 generated cycles, 24000 of them with fault injection (33000 refused
+    evictions) - and the comparison is exact again: a recurrence is a mismatch.) *)
+Definition final_ok (sf : sstate) (fin : list (positive * status * option positive)) : bool :=
   forallb (fun e => let '(p, st, n) := e in
-                    mem_pos p excl
-                    || match get_task (ss_tasks sf) p with
-                       | Some tk => status_eqb (vt_status tk) st
-                                    && (negb (active_used st) || opt_pos_eq (vt_node tk) n)
-                       | None => false
-                       end) fin.
-Definition refused_pods (cs : list fcall) : list positive :=
-  flat_map (fun c => match c with FC false (CEvict p _ _) => [p] | _ => [] end) cs.
+                    match get_task (ss_tasks sf) p with
+                    | Some tk => status_eqb (vt_status tk) st
+                                 && (negb (active_used st) || opt_pos_eq (vt_node tk) n)
+                    | None => false
+                    end) fin.
 
 Definition cyc_agrees (y : cyc) : bool :=
   let env := venv_of (y_env y) in
   list_eqb call_eqb (accepted_calls (y_fcalls y)) (c_calls (y_cc y))
   && bind_stop_ok (state_of (y_cc y) (y_env y)) (y_fcalls y)
-  && final_ok (refused_pods (y_fcalls y)) (snd (cyc_run y)) (y_final y)
+  && final_ok (snd (cyc_run y)) (y_final y)
   && forallb (seg_model_ok env) (cyc_segments y)
   && match y_des y with
      | Some d => Bool.eqb (model_evicts env (state_of (y_cc y) (y_env y)) d) (real_evicts (y_cc y) d)
@@ -384,7 +402,6 @@ Definition run_monitor (cs : list (nat * c06case)) : list nat := failing (fun k 
 Definition run_flags (cs : list (nat * c06case)) : list (nat * list nat) :=
   filter (fun p => negb (Nat.eqb (List.length (snd p)) 0))
          (map (fun c => (fst c, match snd c with
-                                | KCycle y => (if no_refusal (y_fcalls y) then cycle_flags (y_cc y) else [])
-                                              ++ (if final_ok [] (snd (cyc_run y)) (y_final y) then [] else [120%nat])
+                                | KCycle y => if no_refusal (y_fcalls y) then cycle_flags (y_cc y) else []
                                 | _ => []
                                 end)) cs).
